@@ -134,7 +134,10 @@ PROPS = {
     },
     "C04": {
         "lean_modules": ["Cachelito.Props.C04", "Cachelito.Props.X01", "Cachelito.Props.T02", "Cachelito.Props.T07", "Cachelito.Props.T08", "Cachelito.Props.T11", "Cachelito.Props.T14", "Cachelito.Props.T15", "Cachelito.Props.T16", "Cachelito.Props.S01"],
-        "streams": [core_stream(nontrivial=["eviction", "expiry"], enumerate_=SMALL_SCOPE)],
+        "streams": [core_stream(nontrivial=["eviction", "expiry"], enumerate_=SMALL_SCOPE),
+                    macro_stream(nontrivial=["call"], what="L2: real generated functions with an entry limit: after every call the dumped cache holds at most `limit` entries, and an accepted result of a FIFO / LRU plain store is present afterwards (exactly one victim per overflow)"),
+                    sched_stream(nontrivial=['quiescent-cache-checked'], quick=(6, 8, 60), what="L3: scheduled runs of real threads (stores racing with each other, with group / name / conditional invalidations and with expired lookups): once every operation has completed, no cache holds more entries than its limit and every stored key is tracked by the eviction queue (an untracked entry is never counted and never evicted)"),
+                    hammer_stream()],
         "monitors": ["C04"],
         "rule": "generated episodes (config product flavour x policy x limit x max_memory x ttl x fw, key alphabet limit+2) run on the real engines; a step is non-trivial when it evicts or purges an entry; distinct = distinct (config, pre-state, operation)",
         "level_text": "Machine-checked Lean theorems: the store/queue bookkeeping invariant holds in every reachable state, |store| <= limit after every operation of every history, and a plain store leaves exactly min(limit, held + [key new]) entries (one victim per overflow, none otherwise), for all flavours, policies, score algebras, sizes and random draws. The model is tied to the code by per-step full-state comparison on generated and (thorough) exhaustively enumerated histories.",
@@ -181,7 +184,8 @@ PROPS = {
         "streams": [core_stream(filters=[["policy=lfu"], ["policy=arc"], ["policy=tlru"], ["policy=lfu", "shape=crowd"],
                                             ["policy=arc", "shape=crowd"], ["policy=tlru", "shape=crowd"],
                                             ["policy=arc", "shape=crowd", "flavour=async"], ["policy=tlru", "shape=crowd", "flavour=async"]],
-                                   nontrivial=["eviction"], quick=4800, thorough=48000)],
+                                   nontrivial=["eviction"], quick=4800, thorough=48000),
+                    macro_stream(nontrivial=["c08-l2-victim-checked"], what="L2: real #[cache_async] functions with policy lfu / arc / tlru, an entry limit and the frequency_weight WRITTEN on the attribute (anywhere in the list): when a call stores a new key into a full cache, the evicted entry must have the lowest documented score hits^frequency_weight x rank computed from the dumped hit counters and queue order (decisive cases only)")],
         "monitors": ["C08"],
         "rule": "LFU / ARC / TLRU episodes on all three engines, limits 1..4, ttl none/1..3, frequency_weight none/0.1/0.3/1/1.5/3, entry and memory pressure; non-trivial = a store that evicted; the driver mirrors the f64 score exactly",
         "level_text": "Lean theorems: the victim scan returns the FIRST minimiser of the policy's score among stored queue keys for any strict-weak-order comparison (LFU: hits; ARC: hits x rank; TLRU: any scorer), every eviction of a store (limit step and memory loop) is such a victim; LFU victims have the fewest successful lookups (hit counters equal the history's count); async ARC/TLRU: among equally popular entries the least recently used goes first; sync engines: the victim is the first entry with a zero factor, so weight form and rank orientation are unobservable there; TLRU without ttl and weight coincides with ARC on every history.",
